@@ -371,16 +371,22 @@ class ArrayReductionBaseTrans(Transformation, ABC):
         rhs = self._init_var(lhs)
         assignment = Assignment.create(lhs, rhs)
         outer_loop.parent.children.insert(outer_loop.position, assignment)
-        if not (isinstance(orig_rhs, IntrinsicCall) and
-                orig_rhs.intrinsic is self._INTRINSIC_TYPE):
+        if increment or not (isinstance(orig_rhs, IntrinsicCall) and
+                             orig_rhs.intrinsic is self._INTRINSIC_TYPE):
             # The intrinsic call is not the only thing on the rhs of
             # the expression, so we need to deal with the additional
-            # computation.
+            # computation. (This is also needed if a temporary is being
+            # used, e.g. for a(i) = SUM(a), as its value must be
+            # assigned to the original lhs.)
             rhs = orig_rhs.copy()
-            for child in rhs.walk(IntrinsicCall):
-                if child.intrinsic is self._INTRINSIC_TYPE:
-                    child.replace_with(new_lhs.copy())
-                    break
+            if (isinstance(rhs, IntrinsicCall) and
+                    rhs.intrinsic is self._INTRINSIC_TYPE):
+                rhs = new_lhs.copy()
+            else:
+                for child in rhs.walk(IntrinsicCall):
+                    if child.intrinsic is self._INTRINSIC_TYPE:
+                        child.replace_with(new_lhs.copy())
+                        break
             assignment = Assignment.create(orig_lhs.copy(), rhs)
             outer_loop.parent.children.insert(
                 outer_loop.position+1, assignment)
